@@ -43,14 +43,21 @@ func NewSimDisk(name string, c *Ctx) *SimDisk {
 // Arm makes the at-th (0-based) next call of kind ("get_error", "put_error", "remove_error", "has_error") fail.
 func (d *SimDisk) Arm(kind string, at int) {
 	d.mu.Lock()
-	d.armKind, d.armAt, d.armCount = kind, at, 0
+	d.armKind, d.armAt, d.armCount, d.armOnce = kind, at, 0, false
+	d.mu.Unlock()
+}
+
+// ArmFrom makes every call of kind fail from the at-th (0-based) one on, until Disarm.
+func (d *SimDisk) ArmFrom(kind string, at int) {
+	d.mu.Lock()
+	d.armKind, d.armAt, d.armCount, d.armOnce = kind, at, 0, true
 	d.mu.Unlock()
 }
 
 // ArmAll makes every call of kind fail until Disarm.
 func (d *SimDisk) ArmAll(kind string) {
 	d.mu.Lock()
-	d.armKind, d.armAt, d.armCount = kind, -1, 0
+	d.armKind, d.armAt, d.armCount, d.armOnce = kind, -1, 0, false
 	d.mu.Unlock()
 }
 
@@ -68,7 +75,11 @@ func (d *SimDisk) fire(kind string) bool {
 	}
 	n := d.armCount
 	d.armCount++
-	if d.armAt >= 0 && n != d.armAt {
+	if d.armOnce { // "from the n-th call on": a full disk stays full
+		if n < d.armAt {
+			return false
+		}
+	} else if d.armAt >= 0 && n != d.armAt {
 		return false
 	}
 	if d.ctx != nil {
